@@ -1,6 +1,6 @@
 (* C06 — Outbound QoS1/2: stored until acknowledged, retransmitted on session resume.
-   Statements only; proofs in Conn/Session.v, Conn/StoreInv.v and Conn/StoreInv2.v.  Nothing else may be added to this file. *)
-From MQ Require Import Base.Prelude Alloc.Alloc Conn.Types Conn.ConnRecord Conn.Step Corr.ConnTrace Conn.Run Conn.RecvGate Conn.Session Conn.StoreInv Conn.StoreInv2.
+   Statements only; proofs in Conn/Session.v, Conn/StoreInv.v, Conn/StoreInv2.v and Conn/Own.v, Conn/OwnFrame.v, Conn/OwnStep.v.  Nothing else may be added to this file. *)
+From MQ Require Import Base.Prelude Alloc.Alloc Conn.Types Conn.ConnRecord Conn.Step Corr.ConnTrace Conn.Run Conn.RecvGate Conn.Session Conn.StoreInv Conn.StoreInv2 Conn.Own Conn.OwnFrame Conn.OwnStep.
 
 (* every state: an acknowledgement that matches nothing in flight is handled exactly like a
    protocol error — which erases no stored packet and frees no identifier (C06_error_keeps) *)
@@ -74,10 +74,45 @@ Theorem C06_connack_without_session_empties_store : forall c v p c' e,
 Proof. exact connack_without_session_empties_store. Qed.
 Print Assumptions C06_connack_without_session_empties_store.
 
+(* THE IDENTIFIER OF A STORED EXCHANGE STAYS HELD.  [OWN g c] (Conn/Own.v: allocator well formed;
+   stored identifiers in use and pairwise distinct; every stored packet awaited in exactly the set of its
+   kind; the five awaited sets pairwise disjoint) is kept by EVERY call, whatever the peer sends, under
+   the application's side of the contract [own_op_ok] (identifiers handed to send() are ones the
+   application holds; release_packet_id is not called for a stored packet's identifier; restore_packets
+   is given packets of this version with identifiers awaited nowhere) — so in every state of every such
+   history each stored packet's identifier is in use and awaited in the set of its kind. *)
+Theorem C06_history_keeps_ownership : forall g ops c,
+  OWN g c -> c_version c <> VUndet -> own_history_ok g c ops ->
+  match run_state g c ops with Some c' => OWN g c' | None => True end.
+Proof. exact OWN_invariant. Qed.
+Print Assumptions C06_history_keeps_ownership.
+Theorem C06_stored_identifier_held : forall g c q, OWN g c -> In q (c_store c) ->
+  is_used c (k_pid q) = true /\
+  mem (k_pid q) (kset (response_of q) (c_puback c) (c_pubrec c) (c_pubcomp c)) = true /\ k_ver q = c_version c.
+Proof. exact own_stored_held. Qed.
+Print Assumptions C06_stored_identifier_held.
+
+(* the matching acknowledgement of a stored packet erases exactly that packet and leaves its identifier
+   awaited nowhere and on no stored packet (it is then released, or handed to the PUBREL) *)
+Theorem C06_puback_completes : forall g c id, OWN g c -> mem id (c_puback c) = true ->
+  let c1 := store_erase (set_puback c (del id (c_puback c))) (c_version c) T_PUBACK id in
+  OWN g c1 /\ fresh c1 id /\ c_version c1 = c_version c.
+Proof. exact ack_PA_own. Qed.
+Print Assumptions C06_puback_completes.
+Theorem C06_pubrec_completes : forall g c id, OWN g c -> mem id (c_pubrec c) = true ->
+  let c1 := store_erase (set_pubrec c (del id (c_pubrec c))) (c_version c) T_PUBREC id in
+  OWN g c1 /\ fresh c1 id /\ c_version c1 = c_version c.
+Proof. exact ack_PB_own. Qed.
+Print Assumptions C06_pubrec_completes.
+Theorem C06_pubcomp_completes : forall g c id, OWN g c -> mem id (c_pubcomp c) = true ->
+  let c1 := store_erase (set_pubcomp c (del id (c_pubcomp c))) (c_version c) T_PUBCOMP id in
+  OWN g c1 /\ fresh c1 id /\ c_version c1 = c_version c.
+Proof. exact ack_PC_own. Qed.
+Print Assumptions C06_pubcomp_completes.
+
 (* C06_partial: what is still decided by the monitor mon_c06 (ghost store from operations and events
-   against the exported store) and the correspondence rather than a theorem: that the identifier of a
-   stored exchange stays HELD over histories (needs the allocator's representation invariant jointly
-   with the store, under the application contract), and the v5.0 form of accepted_sent_or_stored. *)
+   against the exported store) and the correspondence rather than a theorem: the v5.0 form of
+   accepted_sent_or_stored; the ownership theorems assume a determined protocol version. *)
 
 Example C06_nonvacuous :
   let g := mkCfg RClient 65535 2 in
